@@ -68,11 +68,31 @@ type faultWriter struct {
 	short  int
 	calls  int
 	failed bool
+	// for massive-mode cases: writes that arrive after the call has returned
+	returned bool
+	late     int
+}
+
+func (w *faultWriter) markReturned() (failed bool, out []byte) {
+	w.mu.Lock()
+	defer w.mu.Unlock()
+	w.returned = true
+	return w.failed, append([]byte{}, w.buf.Bytes()...)
+}
+
+func (w *faultWriter) lateWrites() int {
+	w.mu.Lock()
+	defer w.mu.Unlock()
+	return w.late
 }
 
 func (w *faultWriter) Write(p []byte) (int, error) {
 	w.mu.Lock()
 	defer w.mu.Unlock()
+	if w.returned {
+		w.late++
+		return len(p), nil
+	}
 	i := w.calls
 	w.calls++
 	if w.failAt >= 0 && i >= w.failAt {
